@@ -4,6 +4,9 @@ Header   `fallback strategy=<s> [handle=<mask>] val=<n> [via=<builder|short|defa
          `via=`: how the layer is built — the builder, the shortcut constructor of the strategy (only without a predicate),
          `FallbackConfigBuilder::default()`; `upper=`: a second fallback layer stacked on top (error type `FallbackError<IErr>`;
          its test functions see `Inner(e)` as kind 2*e.kind and `FallbackFailed(e)` as kind 2*e.kind+1 and log `upredicate`/`ustrategy`)
+         `chain=<setter>.<setter>.…` (instead of `strategy=` / `handle=` / `order=`): the layer is built by exactly this sequence of
+         builder calls — strategy setters by name (`value:<n>` / `value_fn:<n>`: with n instead of `val`), `h<mask>` = `.handle(..)`,
+         `n` = `.name(..)`; several strategy setters and several `handle` calls in any order: the last of each kind is in force
 Requests `arrive <c> tag=<t> inner=<lat>:<out>[,<lat>:<out>] [post=<steps>] [svc=<k>] [reuse=1]` (second step = the backup call);
          `post=`: what the caller does with an error result before looking at it — `c` clone it, `v` view it through the
          accessors (`view c <is_inner> <is_failed> <ref kind> <ref v> <into kind> <into v>`), `m` convert the payload with
@@ -65,7 +68,7 @@ _via = [0]
 VIAS = ["builder", "short", "default"]
 
 
-def header(s, h, val, ready=None, bready=None, upper=None):
+def header(s, h, val, ready=None, bready=None, upper=None, chain=None):
     # alternate the order of the two builder calls (strategy / handle predicate): they must commute
     _order[0] ^= 1
     # rotate the way the layer is built: builder / shortcut constructor (has no predicate) / `Default` builder
@@ -80,6 +83,11 @@ def header(s, h, val, ready=None, bready=None, upper=None):
         if uvia == "short" and uh is not None:
             uvia = "builder"
         up = " upper=%s%s uval=%d%s" % (us, "" if uh is None else " uhandle=%d" % uh, uval, "" if uvia == "builder" else " uvia=" + uvia)
+    if chain is not None:
+        # the layer is built by this chain of builder calls (no shortcut constructor then)
+        return "fallback chain=%s val=%d%s%s%s%s" % (
+            chain, val, "" if ready is None else " ready=%s" % ready, "" if bready is None else " bready=%s" % bready,
+            " via=default" if via == "default" else "", up)
     return "fallback strategy=%s%s val=%d order=%d%s%s%s%s" % (
         s, "" if h is None else " handle=%d" % h, val, _order[0],
         "" if ready is None else " ready=%s" % ready, "" if bready is None else " bready=%s" % bready,
@@ -95,7 +103,85 @@ FAILED_ONLY = 0xAAAAAAAAAAAAAAAA
 INNER_ONLY = 0x5555555555555555
 UHANDLES = [None, FAILED_ONLY, INNER_ONLY, (1 << 2) | (1 << 3) | (1 << 7)]
 STACK_GRID = [(us, uh, s) for us in UPPERS for uh in UHANDLES for s in ("service", "exception", "from_request_error")]
-GRID_SIZE = len(GRID) + len(READY_GRID) + len(STACK_GRID)
+# builder chains with several strategy setters: every ordered pair of strategies (the same one twice too) x where the
+# `handle` call(s) stand {none, before both, between, after both, before and between (two different predicates)},
+# rotating; then every strategy after two others
+HANDLE_SPOTS = ["none", "before", "between", "after", "twice"]
+CHAIN_GRID = ([(s1, s2) for s1 in STRATEGIES for s2 in STRATEGIES]
+              + [(STRATEGIES[(i + 1) % 6], STRATEGIES[(i + 3) % 6], STRATEGIES[i]) for i in range(6)]
+              + [("exception", STRATEGIES[(i + 2) % 6], STRATEGIES[i]) for i in range(6)])
+GRID_SIZE = len(GRID) + len(READY_GRID) + len(STACK_GRID) + len(CHAIN_GRID)
+
+
+def _strategy_token(rng, s, val):
+    """a strategy setter of a chain; value / value_fn sometimes with a value of their own (so that two `value` setters
+    in one chain differ)"""
+    if s in ("value", "value_fn") and rng.random() < 0.6:
+        return "%s:%d" % (s, rng.choice([val + 1, 3, 40000, rng.randint(0, 999)]))
+    return s
+
+
+def make_chain(rng, strategies, val, spot=None):
+    """the tokens of a builder chain naming `strategies` in that order, `handle` calls at `spot` (random if None) and
+    `name` calls anywhere"""
+    toks = [_strategy_token(rng, s, val) for s in strategies]
+    masks = [2, 6, 0, 4, 14, 514, rng.randint(0, 1023)]
+    if spot is None:
+        for _ in range(rng.choice([0, 1, 1, 2])):
+            toks.insert(rng.randrange(len(toks) + 1), "h%d" % rng.choice(masks))
+    elif spot == "before":
+        toks.insert(0, "h%d" % rng.choice([2, 6]))
+    elif spot == "between":
+        toks.insert(1, "h%d" % rng.choice([2, 6]))
+    elif spot == "after":
+        toks.append("h%d" % rng.choice([2, 6]))
+    elif spot == "twice":
+        a, b = rng.choice([(2, 6), (6, 2), (0, 2), (6, 0)])
+        toks.insert(1, "h%d" % b)
+        toks.insert(0, "h%d" % a)
+    for _ in range(rng.choice([0, 0, 1, 2])):
+        toks.insert(rng.randrange(len(toks) + 1), "n")
+    return ".".join(toks)
+
+
+def chain_in_force(chain, val=None):
+    """(strategy, its value or None, predicate mask or None) in force after a builder chain — the property's reading of
+    the builder: every strategy setter "sets the strategy", `handle` sets the predicate, so the LAST call of each kind
+    counts and the two kinds do not touch each other; None without a strategy setter"""
+    strat, sval, mask = None, None, None
+    for t in chain.split("."):
+        name, _, arg = t.partition(":")
+        if name in STRATEGIES:
+            strat, sval = name, (int(arg) if arg.isdigit() else None)
+        elif name[:1] == "h" and name[1:].isdigit():
+            mask = int(name[1:])
+    if strat is None:
+        return None
+    return strat, sval, mask
+
+
+def config_in_force(cfg):
+    """header -> the configuration the layer must behave as: `chain=` resolved into strategy / val / handle"""
+    f = chain_in_force(cfg["chain"]) if "chain" in cfg else None
+    if f is None:
+        return cfg
+    out = dict(cfg)
+    out["strategy"] = f[0]
+    if f[1] is not None:
+        out["val"] = str(f[1])
+    out.pop("handle", None)
+    if f[2] is not None:
+        out["handle"] = str(f[2])
+    return out
+
+
+def chain_case(rng, i):
+    """the 25 inner x backup outcomes under a layer built by a chain of several strategy setters"""
+    strategies = CHAIN_GRID[i]
+    val = rng.choice([700, 7000, 0])
+    chain = make_chain(rng, strategies, val, HANDLE_SPOTS[(i + i // 6) % len(HANDLE_SPOTS)])
+    li, lb = LATS[i % len(LATS)]
+    return grid_case(rng, (strategies[-1], None, li, lb, rng.choice([None, None, None, 1, 2])), None, chain, val)
 
 
 def _caller_opts(rng, multi):
@@ -168,7 +254,10 @@ def ready_case(rng, point):
     if rng.random() < 0.3:
         _dropsvc(rng, ops, len(ids) + 1)
     ops.append("dropall")
-    return {"header": header(s, h, val, ready, bready, upper), "ops": ops}
+    chain = None
+    if rng.random() < 0.2:
+        chain = make_chain(rng, [rng.choice(STRATEGIES), s], val) + ("" if h is None else ".h%d" % h)
+    return {"header": header(s, h, val, ready, bready, upper, chain), "ops": ops}
 
 
 def _dropsvc(rng, ops, c):
@@ -180,9 +269,10 @@ def _dropsvc(rng, ops, c):
             ops.append("%s %d" % (rng.choice(["poll", "drop"]), c))
 
 
-def grid_case(rng, point, upper=None):
+def grid_case(rng, point, upper=None, chain=None, val=None):
     s, h, li, lb, dp = point
-    val = rng.choice([700, 7000, 0])
+    if val is None:
+        val = rng.choice([700, 7000, 0])
     ops = []
     ids = []
     c = 0
@@ -221,7 +311,7 @@ def grid_case(rng, point, upper=None):
     if dp == 3 or (dp == 2 and first):
         _dropsvc(rng, ops, len(ids) + 1)
     ops.append("dropall")
-    return {"header": header(s, h, val, None, None, upper), "ops": ops}
+    return {"header": header(s, h, val, None, None, upper, chain), "ops": ops}
 
 
 def stack_case(rng, point):
@@ -253,6 +343,10 @@ def random_case(rng):
     upper = None
     if rng.random() < 0.3:
         upper = (rng.choice(UPPERS), rng.choice(UHANDLES + [rng.randint(0, 1 << 24), (1 << 64) - 1]), rng.choice([0, 1, 55, rng.randint(0, 1000)]))
+    # a quarter of the cases: the layer is built by a chain of 1..3 strategy setters ending in `s`, `handle` / `name` calls anywhere
+    chain = None
+    if rng.random() < 0.25:
+        chain = make_chain(rng, [rng.choice(STRATEGIES + ["exception"]) for _ in range(rng.randint(0, 2))] + [s], val)
     multi = rng.random() < 0.4
     pending = list(range(1, ncall + 1))
     arrived = []
@@ -313,7 +407,7 @@ def random_case(rng):
         ops.append("settle")
     if rng.random() < 0.5:
         ops.append("dropall")
-    return {"header": header(s, h, val, ready, bready, upper), "ops": ops}
+    return {"header": header(s, h, val, ready, bready, upper, chain), "ops": ops}
 
 
 def gen(rng, tier):
@@ -323,8 +417,10 @@ def gen(rng, tier):
         return grid_case(rng, GRID[i])
     if i < len(GRID) + len(READY_GRID):
         return ready_case(rng, READY_GRID[i - len(GRID)])
-    if i < GRID_SIZE:
+    if i < len(GRID) + len(READY_GRID) + len(STACK_GRID):
         return stack_case(rng, STACK_GRID[i - len(GRID) - len(READY_GRID)])
+    if i < GRID_SIZE:
+        return chain_case(rng, i - len(GRID) - len(READY_GRID) - len(STACK_GRID))
     return random_case(rng)
 
 
@@ -617,7 +713,7 @@ def _probe_ref(cfg, o):
 
 
 def mon_c17(case, lines, meta):
-    cfg = kvs(case["header"])
+    cfg = config_in_force(kvs(case["header"]))
     tags = _requests(case)
     posts = _posts(case)
     want = [_probe_ref(cfg, o) for o in case["ops"] if o.split()[:2] == ["probe", "strategy"]]
@@ -838,10 +934,46 @@ def _caller_tags(case, lines, cfg):
     return tags
 
 
+def _chain_tags(raw, lines):
+    """builder chains: which strategy was set last, which ones it overrode, where the `handle` calls stand"""
+    if "chain" not in raw or chain_in_force(raw["chain"]) is None:
+        return []
+    # only when the strategy question was actually put: an inner error was handled
+    if not any(tparse(l)[1][:1] == ["inner_done"] and tparse(l)[1][3].startswith("err") for l in lines):
+        return []
+    toks = [t.partition(":")[0] for t in raw["chain"].split(".")]
+    strs = [t for t in toks if t in STRATEGIES]
+    tags = ["chain-last-" + strs[-1]]
+    if len(strs) > 1:
+        tags.append("chain-several-strategies")
+        tags += ["chain-overridden-" + s for s in strs[:-1]]
+        if strs[-1] in strs[:-1]:
+            tags.append("chain-same-strategy-twice")
+        if len(strs) > 2:
+            tags.append("chain-three-strategies")
+    hs = [i for i, t in enumerate(toks) if t[:1] == "h" and t[1:].isdigit()]
+    ss = [i for i, t in enumerate(toks) if t in STRATEGIES]
+    if len(hs) > 1:
+        tags.append("chain-two-handles")
+    for i in hs:
+        if i < ss[0]:
+            tags.append("chain-handle-before-strategies")
+        elif i > ss[-1]:
+            tags.append("chain-handle-after-strategies")
+        else:
+            tags.append("chain-handle-between-strategies")
+    if not hs:
+        tags.append("chain-no-handle")
+    if "n" in toks:
+        tags.append("chain-name")
+    return tags
+
+
 def transitions(case, lines, meta=None):
-    cfg = kvs(case["header"])
+    raw = kvs(case["header"])
+    cfg = config_in_force(raw)
     strat = cfg.get("strategy", "value")
-    tags = _dropsvc_tags(case, lines, meta) + _ready_tags(case, lines, cfg, strat) + _caller_tags(case, lines, cfg)
+    tags = _dropsvc_tags(case, lines, meta) + _ready_tags(case, lines, cfg, strat) + _caller_tags(case, lines, cfg) + _chain_tags(raw, lines)
     done_err = set()
     for l in lines:
         _, w = tparse(l)
@@ -900,7 +1032,11 @@ ALL = (["inner-ok", "inner-err", "inner-panic", "handled-no-predicate", "predica
           "probe-strategy-clone", "stack-ok-result", "stack-error-result", "stack-readiness-error",
           "upper-predicate-accepts", "upper-predicate-rejects", "upper-sees-failed", "upper-sees-inner",
           "upper-exception-on-failed-backup"]
-       + ["upper-strategy-" + s for s in UPPERS if s != "value"])
+       + ["upper-strategy-" + s for s in UPPERS if s != "value"]
+       + ["chain-last-" + s for s in STRATEGIES] + ["chain-overridden-" + s for s in STRATEGIES]
+       + ["chain-several-strategies", "chain-three-strategies", "chain-same-strategy-twice", "chain-two-handles",
+          "chain-handle-before-strategies", "chain-handle-between-strategies", "chain-handle-after-strategies",
+          "chain-no-handle", "chain-name"])
 
 LEVEL_NOTE = ("Trusted: Lean kernel; the reading of lib.rs:274-512 as TR.Model.Fallback.afterInner/afterBackup and of the async block as the "
               "three-phase machine (validated by the sampled correspondence check, which enumerates the complete strategy x predicate x inner "
@@ -920,9 +1056,9 @@ SPECS = {
         "nontrivial": nontrivial,
         "all_transitions": ALL,
         "model_modules": ["TR.Model.Fallback", "TR.Lemmas.Fallback", "TR.Lemmas.FallbackDrop", "TR.Lemmas.FallbackStack",
-                          "TR.Lemmas.FallbackRun", "TR.Lemmas.FallbackRequest", "TR.Lemmas.FallbackCount"],
+                          "TR.Lemmas.FallbackRun", "TR.Lemmas.FallbackRequest", "TR.Lemmas.FallbackCount", "TR.Lemmas.FallbackBuilder"],
         "lean_files": ["TR.Model.Fallback", "TR.Lemmas.Fallback", "TR.Lemmas.FallbackDrop", "TR.Lemmas.FallbackStack",
-                       "TR.Lemmas.FallbackRun", "TR.Lemmas.FallbackRequest", "TR.Lemmas.FallbackCount"],
+                       "TR.Lemmas.FallbackRun", "TR.Lemmas.FallbackRequest", "TR.Lemmas.FallbackCount", "TR.Lemmas.FallbackBuilder"],
         "sizes": (GRID_SIZE + 404, 20000),
         "rule": "the first %d cases of every run enumerate the grid 6 strategies x {no predicate, accepts kind 1, accepts kinds 1-2, rejects all} "
                 "x inner {ok, err1, err2, panic, never} x backup {ok, err3, err1, panic, never} x latency pattern {0,5}x{0,3} ms (25 tagged "
@@ -935,7 +1071,10 @@ SPECS = {
                 "second request's error result goes through a caller-side post-processing (clone / accessors / FallbackError::map steps), the layer "
                 "is built in rotation through the builder, the strategy's shortcut constructor (no predicate) and the Default builder, in one case of "
                 "four the requests are spread over several services built from the one layer value (odd ones from a clone of it) and some calls are "
-                "made on the long-lived handles themselves, some cases probe a cloned FallbackStrategy value; the rest are seeded random schedules (arrive/poll/drop/adv/settle, 1..8 requests, "
+                "made on the long-lived handles themselves, some cases probe a cloned FallbackStrategy value; then the builder-chain grid: every ordered pair of "
+                "strategy setters in one chain (the same one twice too, value setters with different values) and 12 chains of three, the handle call(s) "
+                "{absent, before, between, after, two different ones} and name calls in between (25 requests each; header chain=…: the layer is built by "
+                "exactly that sequence of builder calls); the rest are seeded random schedules (in a quarter of them and a fifth of the readiness cases the layer is built by a chain of 1..3 strategy setters with handle/name calls anywhere;  (arrive/poll/drop/adv/settle, 1..8 requests, "
                 "random tags, kinds, masks, latencies, drops in every phase, in every second one the service handles dropped at a random point "
                 "and requests attempted afterwards, in two of five a readiness script of the wrapped service / of the backup service); distinct = distinct implementation log; non-trivial = an error was replaced, returned "
                 "unchanged, or the backup failed / was cancelled" % GRID_SIZE,
@@ -978,7 +1117,11 @@ SPECS = {
                       "a delivered result is the value of the pure reference function resolve of (configuration, the request handed in, the number of "
                       "value_fn callbacks before the inner_done, inner result, backup result) with no existential left (result_exact_counted, "
                       "result_is_reference_function), at most one per request (at_most_one_completion_and_result); and the caller's log is postRun of what "
-                      "was delivered (caller_result_is_post_run, caller_view_is_post_run). "
+                      "was delivered (caller_result_is_post_run, caller_view_is_post_run); and WHICH configuration is in force is a function of the chain of "
+                      "builder calls: the strategy setter called last is in force with the function it was given, whatever was set before (exception "
+                      "included), the predicate is that of the last handle call or none, neither slot depends on the setters of the other, build() "
+                      "fails exactly without a strategy setter (builder_strategy_last_wins, builder_predicate_independent, builder_needs_a_strategy, "
+                      "install_reads_own_function, builder_behaviour_is_last_strategy, builder_exception_overridden). "
                       "Model tied to the real FallbackLayer by line-for-line agreement on the "
                       "complete grid plus random schedules.",
         "level_note": LEVEL_NOTE,
